@@ -351,6 +351,19 @@ class _Namespace:
         return f"<{self._name}>"
 
 
+def _with_base(one):
+    """log(x) / log(x, base): the two-argument form is log(x)/log(base)"""
+    def f(x, *base):
+        if not base:
+            return one(x)
+        if len(base) > 1:
+            raise TypeError("log expected at most 2 arguments")
+        return one(x) / one(base[0])
+    f.__name__ = "log"
+    return f
+
+
+HP_FUNCS["log"] = _with_base(HP_FUNCS["log"])
 HP_MATH = _Namespace("hp-math", HP_FUNCS)
 
 # }}}
@@ -578,6 +591,7 @@ DUAL_FUNCS = {
     "copysign": _copysign,
 }
 
+DUAL_FUNCS["log"] = _with_base(DUAL_FUNCS["log"])
 DUAL_MATH = _Namespace("dual-math", DUAL_FUNCS)
 
 # }}}
